@@ -216,6 +216,9 @@ structure Sig where
   max : Bool
   /-- `party_lists` / `list_votes` -/
   ext : Bool := false
+  /-- `n_seats` is a REQUIRED parameter (no default): the evaluator cannot be called without a seat count
+      argument (only meaningful when `seats`) -/
+  needs : Bool := false
 deriving DecidableEq, Repr, Inhabited
 
 abbrev Sem := Args → Except Err V
@@ -333,6 +336,25 @@ def acceptsMaxSeats : Ev → Bool
   | .multistage _ _ => true
   | .unusedVotes _ _ _ => true
   | .partyList p _ _ => acceptsMaxSeats p
+
+/-- `seats_optional(evaluator)` (notes/fix_C14_cond_none_seats.diff): the parameter `n_seats` has a default;
+    for a generic signature the answer of the attribute `evaluator` / `main`; True when there is no such
+    parameter -/
+def seatsOptional : Ev → Bool
+  | .leaf sig _ => !(sig.seats && sig.needs)
+  | .fixedSeatCount e _ => seatsOptional e        -- (votes, **kwargs), attribute `evaluator`
+  | .tieBreaking main _ => seatsOptional main
+  | .preConverted _ e => seatsOptional e
+  | .postConverted e _ => seatsOptional e
+  | .votingSystem e => seatsOptional e
+  | .conditioned _ _ _ => true                    -- n_seats=None
+  | .byConstituency _ _ _ => true
+  | .preApportioned _ _ => true
+  | .removedApportionment _ => true
+  | .byParty _ _ => true
+  | .multistage _ _ => false                      -- (votes, n_seats, prev_gains={}, max_seats={})
+  | .unusedVotes _ _ _ => false
+  | .partyList _ _ _ => false                     -- (votes, n_seats, *, party_lists, …)
 
 /-! ### the flags as they were (kept for the witnesses of the repaired defects only) -/
 
@@ -571,8 +593,29 @@ def tieBreakingImpl (main tb : Sem) : Sem := fun a => do
   | .tie _ => pure r
   | _ => throw eType
 
-/-- Conditioned.evaluate (core.py L829-864): `(votes, n_seats=None, prev_gains={}, **kwargs)` -/
-def conditionedImpl (elimPrev evSeats evPrev : Bool) (elim part : Sem) (depth : Nat) : Sem := fun a => do
+/-- how "no seat count" (the wrapper's default `n_seats=None`) is written for a part: not at all, or as None
+    if the part's `n_seats` is a required parameter; a given seat count is handed on as it is
+    (`_passes_seats`, notes/fix_C14_cond_none_seats.diff) -/
+def seatsForm (needs : Bool) (n : V) : Option V :=
+  if isNone n then (if needs then some .none else Option.none) else some n
+
+/-- Conditioned.evaluate (core.py L829-864): `(votes, n_seats=None, prev_gains={}, **kwargs)`; the main
+    evaluator is called with `n_seats` only if `_passes_seats`: it accepts seats and (`n_seats is not None`
+    or not `seats_optional(evaluator)`, flag `evOpt`) -/
+def conditionedImpl (elimPrev evSeats evOpt evPrev : Bool) (elim part : Sem) (depth : Nat) : Sem := fun a => do
+  let n := a.n.getD .none
+  let prev := a.prev.getD (.dict [])
+  let sv ← sumParty depth a.votes
+  let sp ← sumParty depth prev
+  let passed ← if elimPrev then elim { votes := sv, prev := some sp } else elim { votes := sv }
+  let ev ← elimParty depth a.votes passed
+  part { votes := ev
+         n := if evSeats then seatsForm (!evOpt) n else Option.none
+         prev := if evPrev then some prev else Option.none
+         max := a.max, pl := a.pl, lv := a.lv }
+
+/-- Conditioned.evaluate BEFORE that fix: the default `None` went to the main evaluator (witnesses only) -/
+def conditionedImplOld (elimPrev evSeats evPrev : Bool) (elim part : Sem) (depth : Nat) : Sem := fun a => do
   let n := a.n.getD .none
   let prev := a.prev.getD (.dict [])
   let sv ← sumParty depth a.votes
@@ -617,7 +660,7 @@ def districtResults (rs : List (Key × Option V)) (kind : V) : V :=
 
 /-- ByConstituency.evaluate (core.py L940-995, L1018-1028) after 9f4a9df: `apportionment.get(district, 0)`,
     `type(next(iter(results.values()), {}))` -/
-def byConstituencyImpl (evPrev evMax preSeats : Bool) (part : Sem) (app : App Sem) (pre : Option Sem) : Sem :=
+def byConstituencyImpl (evPrev evMax preSeats preOpt : Bool) (part : Sem) (app : App Sem) (pre : Option Sem) : Sem :=
   fun a => do
   if !a.noExt then throw eType
   let n := a.n.getD .none
@@ -628,7 +671,7 @@ def byConstituencyImpl (evPrev evMax preSeats : Bool) (part : Sem) (app : App Se
     | Option.none => pure Option.none
     | some p => do
         let nat ← voteTotals a.votes
-        let r ← if preSeats then p { votes := nat, n := some n } else p { votes := nat }
+        let r ← p { votes := nat, n := if preSeats then seatsForm (!preOpt) n else Option.none }
         pure (some r)
   let kvs ← a.votes.items
   let rs ← kvs.mapM (fun p => do
@@ -720,13 +763,13 @@ def setNested (res : D) (c party : Key) (s : V) : Except Err D := do
 /-- ByParty.evaluate (core.py L1140-1200); `overallSeats = accepts_seats(overall_evaluator)` decides whether
     `n_seats` is handed to the overall evaluator (e582ee8); the allocator gets the party's column of
     `prev_gains` / `max_seats` each only if it accepts it (5bf2df2) -/
-def byPartyImpl (overallSeats allocPrev allocMax : Bool) (overall allocator : Sem) : Sem := fun a => do
+def byPartyImpl (overallSeats overallOpt allocPrev allocMax : Bool) (overall allocator : Sem) : Sem := fun a => do
   if !a.noExt then throw eType
   let n := a.n.getD .none
   let prev := a.prev.getD (.dict [])
   let max := a.max.getD (.dict [])
   let ov ← voteTotals a.votes
-  let ores ← if overallSeats then overall { votes := ov, n := some n } else overall { votes := ov }
+  let ores ← overall { votes := ov, n := if overallSeats then seatsForm (!overallOpt) n else Option.none }
   let od ← ores.items
   let kvs ← a.votes.items
   let res ← od.foldlM (fun (res : D) pk => do
@@ -888,12 +931,14 @@ def eval : Ev → Sem
   | .fixedSeatCount e n => fixedSeatCountImpl n (eval e)
   | .tieBreaking main tb => tieBreakingImpl (eval main) (eval tb)
   | .conditioned elim e depth =>
-      conditionedImpl (acceptsPrevGains elim) (acceptsSeats e) (acceptsPrevGains e) (eval elim) (eval e) depth
+      conditionedImpl (acceptsPrevGains elim) (acceptsSeats e) (seatsOptional e) (acceptsPrevGains e)
+        (eval elim) (eval e) depth
   | .preConverted c e => preConvertedImpl c.run (eval e)
   | .postConverted e c => postConvertedImpl (eval e) c.run
   | .byConstituency e app pre =>
       byConstituencyImpl (acceptsPrevGains e) (acceptsMaxSeats e)
         (match pre with | some p => acceptsSeats p | Option.none => false)
+        (match pre with | some p => seatsOptional p | Option.none => true)
         (eval e)
         (match app with | .none => .none | .int k => .int k | .dict d => .dict d | .ev ap => .ev (eval ap))
         (match pre with | some p => some (eval p) | Option.none => Option.none)
@@ -904,10 +949,11 @@ def eval : Ev → Sem
   | .byParty overall alloc =>
       match alloc with
       | some al =>
-          byPartyImpl (acceptsSeats overall) (acceptsPrevGains al) (acceptsMaxSeats al) (eval overall) (eval al)
+          byPartyImpl (acceptsSeats overall) (seatsOptional overall) (acceptsPrevGains al) (acceptsMaxSeats al)
+            (eval overall) (eval al)
       | Option.none =>
-          byPartyImpl (acceptsSeats overall) (acceptsPrevGains overall) (acceptsMaxSeats overall)
-            (eval overall) (eval overall)
+          byPartyImpl (acceptsSeats overall) (seatsOptional overall) (acceptsPrevGains overall)
+            (acceptsMaxSeats overall) (eval overall) (eval overall)
   | .multistage rounds depth => multistageImpl (evalList rounds) depth
   | .unusedVotes rounds quotas depth => unusedVotesImpl (evalList rounds) quotas depth
   | .partyList party le conv => partyListImpl (eval party) le (conv.map Conv.run)
